@@ -34,10 +34,12 @@ func ProcessMidiEvents(ctx context.Context, port driver.Port,
 			case <-ctx.Done():
 				break root
 			case ev, ok = <-midiEventsOut:
-				if ok { // todo: investigate
-					if ev[0]&0b11110000 == NoteOn {
-						score.Score++
-					}
+				if !ok {
+					// channel closed on shutdown, there is nothing to forward
+					break root
+				}
+				if ev[0]&0b11110000 == NoteOn {
+					score.Score++
 				}
 			}
 
